@@ -33,8 +33,16 @@ RULE = ('cases from one PRNG state: {crosscov,crosscorr,autocov,autocorr} x {rea
         '(call, ~40 other calls of the family with other options on the same arrays, every handed-out array overwritten, call again: equal; more calls: the '
         'result still holds); keywords left out when they have their default value; near-constant (relative spread 1e-4) and constant channels where the '
         'clause has a verdict; Seed/Normalization/CorrelationAnalyzer over the dtype cycle, re-read through NEW analyzers; '
+        'round 4 (L10, own PRNG streams, c20_l10.py): every scale-/shift-free clause — seed_corrcoef (function and SeedCorrelationAnalyzer), '
+        'CorrelationAnalyzer.corrcoef / xcorr_norm, zscore, percent_change (functions and NormalizationAnalyzer), debiased crosscov / autocov — on COUNT-VALUED data '
+        'riding on an additive baseline 2^10..2^30 with +-1..+-3 fluctuation (another level per row / lane / channel, float64 or int64 storage) and with power-of-two '
+        'gains 2^+-250 (percent_change 2^+-500; another gain per argument, the second row / lane / channel 2^-30 of the others), judged against EXACT RATIONAL arithmetic '
+        '(fractions.Fraction, one rounding at the end) at tol = 1e-9 + 16 eps max|x|/sigma (the forward error of a backward-stable evaluation; the unchanged code stays below '
+        '5 % of it, raw-moment one-pass forms exceed it from level 2^12 on). Over the reals the one-pass Pearson formula IS the two-pass one (theorem '
+        'pearson_one_pass_eq_two_pass) and the coefficient is shift-/scale-free (pearson_shift_invariant, pearson_scale_invariant): no theorem can see such a rewrite, '
+        'only the correspondence (implementation vs the binary64 run of the two-pass model text on the same numbers) and this oracle do; '
         'distinct = distinct protocol line; non-trivial = non-constant input')
-ASSUMPTIONS = ['zscore / seed_corrcoef inputs have non-zero variance along the axis (relative to their own magnitude), percent_change inputs have non-zero mean (monitored: generators avoid them, the count of skipped degenerate lanes is reported)',
+ASSUMPTIONS = ['zscore / seed_corrcoef inputs have non-zero variance along the axis (relative to their own magnitude; the L10 baseline strata: sigma >= 0.3 EXACTLY, on levels up to 2^30, tolerance 1e-9 + 16 eps max|x|/sigma), percent_change inputs have non-zero mean (monitored: generators avoid them, the count of skipped degenerate lanes is reported)',
                'amplitude domain: N*max|x|^2 and the smallest squares that matter are NORMAL numbers of the working dtype (float64: data in 1e-140..1e142, float32: 1e-13..1e15) — outside it even numpy\'s own mean/std/dot of the definition over- or underflow; percent_change (linear) is exercised over 1e-300..1e300',
                'binary64 / binary32 rounding inside the routines is not modelled: numeric outputs are compared at 1e-9 (64-bit data) or 2e-4 (32-bit data) of the largest magnitude (+ an absolute term proportional to the input scale for FFT round-off)']
 TRUSTED_EXTRA = ['scipy.fftpack.fft/ifft inside utils.fftconvolve are modelled by their documented semantics (naive O(L^2) DFT of the zero-padded input, inverse with 1/L); the convolution theorem for THAT model is proved (fftconvolve_is_linear_convolution, crosscov_fft_is_lagged_sum); that scipy computes the DFT is trusted and checked per run by correspondence (ops fftconv / covfft)',
@@ -727,6 +735,118 @@ def degenerate(w, ax):
     return bool((np.std(w, axis=ax) <= 1e-6 * top).any())
 
 
+def l10_cases(_rng, tier, seed, k):
+    """round 4, class L10: every scale-/shift-free clause on count-valued data riding on a large additive baseline (level 2^10..2^30,
+    fluctuation +-1..+-3: kappa = max|x|/sigma up to 1e9) and with power-of-two gains 2^+-250 (another gain per argument, per target
+    row, per lane, per channel).  Own PRNG streams: the older strata are generated exactly as before.  Same protocol lines as the
+    ordinary cases (the model runs its two-pass text in binary64 on the same numbers); the oracle judges against exact rational
+    arithmetic at tol(kappa) = 1e-9 + 16 eps kappa (c20_l10.py)."""
+    import random
+    import common
+    import c20_l10 as L
+    rng = random.Random('C20/l10/%s/%s' % (tier, seed))
+    nr = common.np_rng(PID, seed, 'l10')
+    lev, gains = Cycle(L.LEVELS, rng), Cycle(L.GAINS, rng)
+    out = []
+    modes = ['baseline', 'gain', 'baseline-gain']
+    # --- seed_corrcoef (function and SeedCorrelationAnalyzer): baseline on the target rows (another level per row), on the seed or not
+    for i in range(12 * k):
+        mode = modes[i % 3]
+        n, nt, amp = rng.randint(3, 40), rng.randint(1, 4), rng.choice([1, 2, 3])
+        gs, gt = gains() if mode != 'baseline' else (0, 0)
+        dt = 'i8' if mode == 'baseline' and rng.random() < 0.3 else 'f8'       # raw scanner counts stored as integers
+        lop = 30 if dt == 'f8' else 0          # the second row 2^-30 of the others
+        seedv = L.lane(nr, n, None if mode == 'gain' else rng.choice([None, 5, lev()]), 5, 1, gs)
+        targ = np.array([L.lane(nr, n, rng.choice([None, 3]) if mode == 'gain' else lev(), amp, rng.choice([1, -1]),
+                                gt - (lop if r_ == 1 else 0)) for r_ in range(nt)])
+        seedv, targ = seedv.astype(DT[dt]), targ.astype(DT[dt])
+        one_d = nt == 1 and rng.random() < 0.5
+        variant = rng.choice(['plain', 'plain', 'strided', 'fortran', 'readonly'])
+        via = 'analyzer' if rng.random() < 0.3 else None
+        out.append(Case('C20 seedcc %d %s %s' % (n, flist(wide(seedv)), flist(wide(targ).reshape(-1))), seedcc_impl(seedv, targ, one_d, variant, via),
+                        ('analyzer/' if via else '') + 'seed_corrcoef/' + mode, cmp=cmp_scalar(1e-12, 1e-9),
+                        meta={'op': 'seedcc', 'seed': arr_tok(wide(seedv)), 'targ': arr_tok(wide(targ)), 'one_d': one_d, 'variant': variant,
+                              'dt': dt, 'dt2': dt, 'pr': 'd', 'exp': [gs, gt], 'via': via, 'l10': True}))
+    # --- zscore / percent_change: lanes on different levels / gains
+    for i in range(12 * k):
+        fn = ['zscore', 'pchange'][i % 2]
+        mode = modes[(i // 2) % 3]
+        n, nl, amp = rng.randint(3, 40), rng.randint(1, 3), rng.choice([1, 2, 3])
+        g = gains()[0] if mode != 'baseline' else 0
+        if fn == 'pchange' and g:
+            g *= 2          # percent change is linear in the data: 2^+-500
+        dt = 'i8' if mode == 'baseline' and rng.random() < 0.3 else 'f8'
+        lop = 30 if dt == 'f8' else 0
+        x = np.array([L.lane(nr, n, rng.choice([3, 5]) if mode == 'gain' else lev(), amp, rng.choice([1, -1]), g - (lop if r_ == 1 else 0))
+                      for r_ in range(nl)])
+        axis = -1
+        if rng.random() < 0.4:
+            x, axis = np.ascontiguousarray(x.T), 0
+        elif nl == 1 and rng.random() < 0.5:
+            x = x[0]
+        x = x.astype(DT[dt])
+        via = rng.choice([None, 'default', 'analyzer']) if axis == -1 else None
+        variant = rng.choice(['plain', 'plain', 'strided', 'fortran', 'readonly'])
+        sh, xd = arr_tok(wide(x))
+        out.append(Case('C20 %s %d %s %s' % (fn, axis, sh, xd), norm_impl(fn, x, axis, variant, via),
+                        ('analyzer/normalization/' if via == 'analyzer' else 'norm/') + fn + '/' + mode, cmp=cmp_nd(False, 1e-9, 1e-9),
+                        meta={'op': fn, 'x': arr_tok(wide(x)), 'axis': axis, 'variant': variant, 'dt': dt, 'via': via, 'l10': True}))
+    # --- the debiased covariances are shift-free: crosscov / autocov(debias=True) of lanes riding on baselines (and gains: the result
+    # scales by 2^(gx+gy) exactly); judged against the exact lagged sums of the exactly demeaned lanes, relative to N sigma_x sigma_y
+    for i in range(8 * k):
+        fn = ['crosscov', 'autocov'][i % 2]
+        mode = ['baseline', 'baseline-gain'][(i // 2) % 2]
+        n, amp = rng.choice([3, 8, 16, 17, rng.randint(3, 48)]), rng.choice([1, 2, 3])
+        gx, gy = gains() if mode != 'baseline' else (0, 0)
+        x = L.lane(nr, n, lev(), amp, rng.choice([1, -1]), gx // 2)
+        y = L.lane(nr, n, rng.choice([None, 5, lev()]), 3, 1, gy // 2 - 30) if fn == 'crosscov' else None
+        c = mk_cov_case(fn, x, y, -1, rng.randint(0, 1), 1, rng.randint(0, 1), rng.choice(['plain', 'strided', 'readonly', 'plain']), ('f8', 'f8'),
+                        paths=bool(i % 4 < 2))
+        out.append(l10_mark_cov(c, mode))
+    # --- correlation_spectrum (demeans, divides by both norms: shift- and scale-free): the un-normalised spectrum sums to Pearson's r
+    for i in range(4 * k):
+        mode = modes[i % 3]
+        n, amp = rng.randint(3, 48), rng.choice([1, 2, 3])
+        ga, gb = gains() if mode != 'baseline' else (0, 0)
+        a = L.lane(nr, n, rng.choice([None, 3]) if mode == 'gain' else lev(), amp, rng.choice([1, -1]), ga)
+        b = L.lane(nr, n, rng.choice([None, 3]) if mode == 'gain' else rng.choice([None, lev()]), 3, 1, gb - 30)
+        variant, opts = rng.choice(['plain', 'plain', 'strided', 'readonly']), rng.choice([0, 1, 2, 3])
+        out.append(Case('C20 corrspec 0 %s %s' % (flist(a), flist(b)), corrspec_impl(a, b, 0, variant, opts), 'correlation_spectrum/' + mode,
+                        cmp=cmp_scalar(1e-10, 1e-9),
+                        meta={'op': 'corrspec', 'a': a.tolist(), 'b': b.tolist(), 'nm': 0, 'exp': [ga, gb], 'dt': 'f8', 'dtb': 'float64',
+                              'variant': variant, 'opts': opts, 'l10': mode}))
+    # --- CorrelationAnalyzer.corrcoef / xcorr_norm (np.corrcoef based): channels on different levels / gains
+    for i in range(6 * k):
+        mode = modes[i % 3]
+        nch, n, amp = rng.randint(2, 4), rng.randint(3, 24), rng.choice([1, 2, 3])
+        g = gains()[0] if mode != 'baseline' else 0
+        data = np.array([L.lane(nr, n, rng.choice([3, 5]) if mode == 'gain' else lev(), amp, rng.choice([1, -1]) if i % 2 == 0 else 1,
+                                g - (30 if r_ == 1 else 0)) for r_ in range(nch)])
+        for c in mk_xcorr_cases((['cc', 'norm'][i % 2],), data):
+            l10_mark(c, mode)
+            out.append(c)
+    return out
+
+
+def l10_mark_cov(c, mode):
+    import c20_l10 as L
+    m = c.meta
+    x = un_tok(m['x'], False).reshape(-1)
+    y = un_tok(m['y'], False).reshape(-1) if m['y'] else x
+    scale = L.cov_exact(x, y, 0, m['nm'])[1]
+    c.meta['l10'] = mode
+    c.clause = c.clause + '/' + mode
+    c.cmp = (cmp_two_paths if m.get('paths') else cmp_nd)(False, 1e-9 * scale, 1e-9)    # relative to the FLUCTUATION, not to the level
+    return c
+
+
+def l10_mark(c, mode):
+    c.meta['l10'] = mode
+    c.clause = c.clause + '/' + mode
+    c.cmp = cmp_xcorr(1e-12, 1e-9)       # both outputs are O(1) whatever the level / gain of the data
+    return c
+
+
 def cases(rng, tier, seed):
     import common
     nr = common.np_rng(PID, seed, 'arrays')
@@ -922,6 +1042,7 @@ def cases(rng, tier, seed):
         if fn == 'ecc' and len(set(seqs[0])) == 1 and len(set(seqs[1])) == 1:
             seqs[0][0] += 1    # 0/0 is not interesting
         out.append(mk_ent_case(fn, seqs, rng.randint(1, 5) if fn == 'te' else None, rng.choice(VARIANTS), labs()))
+    out += l10_cases(rng, tier, seed, k)
     if skipped:
         out.append(Case('C20 nop', 'bad-op', 'monitor/skipped-degenerate-%d' % skipped, nontrivial=False))
     return out
@@ -1041,6 +1162,17 @@ def check_case(c, rng=None):
         pr = 's' if 's' in [prec(d) for d in dts] else 'd'
         rtol, atol = RTOL[pr], ATOLF[pr] * magnitude(x, y if y is not None else x) * N
         note = ' [storage dtypes %s, max|x| = %.3g]' % ('/'.join(dts), float(np.abs(x).max()))
+        if m.get('l10'):
+            # round 4 (L10): debiased covariance of lanes on a baseline = exact lagged sums of the exactly demeaned lanes
+            import c20_l10 as L
+            for lx, ly, lg in zip(gx, gy, gg):
+                want, scale = L.cov_exact(lx.real, ly.real, al, nm)
+                kap = max(L.kappa(lx.real), L.kappa(ly.real))
+                err = float(np.abs(lg - np.array(want)).max()) if np.isfinite(lg).all() else float('inf')
+                if not err <= L.tol(kap) * scale:
+                    return fail(c, 'value', 'not the lagged sums of the demeaned lanes (exact rational reference): max error %.3g, N*sigma_x*sigma_y = %.3g, max|x|/sigma = %.3g%s'
+                                % (err, scale, kap, note))
+            return None
         for lx, ly, lg in zip(gx, gy, gg):
             want = direct_cov(lx, ly, al, db, nm)
             if not close_c(list(lg), list(want), rtol, atol):
@@ -1087,6 +1219,21 @@ def check_case(c, rng=None):
         gx, _ = lanes(x, ax)
         tol = RTOL[prec(m.get('dt', 'f8'))]
         note = ' [storage dtype %s, max|x| = %.3g]' % (m.get('dt', 'f8'), float(np.abs(x).max()))
+        if m.get('l10'):
+            # round 4 (L10): the definition in exact rational arithmetic, lane by lane; tolerance from the lane's own condition number
+            import c20_l10 as L
+            for lx, lg in zip(gx, g):
+                kap = L.kappa(lx)
+                tl = L.tol(kap)
+                want = np.array(L.zscore(lx) if op == 'zscore' else L.pchange(lx))
+                if not (np.isfinite(lg).all() and np.abs(lg - want).max() <= tl * np.abs(want).max()):
+                    return fail(c, 'value', 'lane is not %s of the input lane (exact rational reference; max|x|/sigma = %.3g, max error %.3g relative to the largest entry)%s' % (
+                        '(x - mean)/std' if op == 'zscore' else '(x/mean - 1)*100', kap, float(np.abs(lg - want).max() / np.abs(want).max()), note))
+                if not abs(lg.mean()) <= tl * max(1.0, float(np.abs(lg).max())):
+                    return fail(c, 'mean', 'mean along the axis is %r, not 0%s' % (float(lg.mean()), note))
+                if op == 'zscore' and not abs(lg.var() - 1) <= 10 * tl:
+                    return fail(c, 'variance', 'variance along the axis is %r, not 1%s' % (float(lg.var()), note))
+            return None
         for lx, lg in zip(gx, g):      # the definition, lane by lane, on THIS input (the outputs are scale-free)
             mu = lx.sum() / len(lx)
             want = (lx - mu) / math.sqrt(((lx - mu) ** 2).sum() / len(lx)) if op == 'zscore' else (lx / mu - 1) * 100
@@ -1104,6 +1251,17 @@ def check_case(c, rng=None):
             return fail(c, 'raises', 'call failed')
         got = parse_flist(c.impl[3:])
         s, t = un_tok(m['seed'], False), un_tok(m['targ'], False)
+        if m.get('l10'):
+            # round 4 (L10): Pearson's definition in exact rational arithmetic; tolerance from the rows' own condition numbers
+            import c20_l10 as L
+            ks = L.kappa(s)
+            for i, row in enumerate(t):
+                kap = max(ks, L.kappa(row))
+                want = L.pearson(s, row)
+                if len(got) != len(t) or not abs(got[i] - want) <= L.tol(kap):
+                    return fail(c, 'value', 'not the Pearson coefficient (exact rational reference): row %d gives %r, definition %r [max|x|/sigma = %.3g, gains 2^%s]' % (
+                        i, got[i] if i < len(got) else None, want, kap, m.get('exp')))
+            return None
         want = [float(np.corrcoef(s, row)[0, 1]) for row in t]
         tol = {'d': 1e-9, 's': RTOL['s']}[m.get('pr', prec(m.get('dt', 'f8')))]
         if len(got) != len(want) or not close_c(got, want, tol, tol * 1e-3):
@@ -1119,18 +1277,25 @@ def check_case(c, rng=None):
             return fail(c, p_.split(':')[0], 'reading %s on one analyzer: %s' % ('-'.join(m['order']), p_))
         d = np.array(m['data'])
         nch, N = d.shape
+        cc_exact = None
+        if m.get('l10'):
+            import c20_l10 as L
+            cc_exact = np.array([[L.pearson(a, b) for b in d] for a in d])
+            kap = max(L.kappa(a) for a in d)
         if m['which'] == 'cc':
             got = np.array(parse_flist(c.impl[3:]))
-            want = np.corrcoef(d).reshape(-1)
-            if len(got) != len(want) or np.abs(got - want).max() > {'d': 1e-9, 's': 1e-4}[prec(m.get('dt', 'f8'))]:
-                return fail(c, 'value', 'corrcoef is not the Pearson matrix')
+            want = np.corrcoef(d).reshape(-1) if cc_exact is None else cc_exact.reshape(-1)
+            if len(got) != len(want) or not np.abs(got - want).max() <= ({'d': 1e-9, 's': 1e-4}[prec(m.get('dt', 'f8'))] if cc_exact is None else L.tol(kap)):
+                return fail(c, 'value', 'corrcoef is not the Pearson matrix' + ('' if cc_exact is None else ' (exact rational reference, max|x|/sigma = %.3g)' % kap))
             return None
         got = np.array(parse_flist(c.impl[3:])).reshape(nch, nch, 2 * N - 1)
         tol = RTOL[prec(m.get('dt', 'f8'))] * float(np.abs(got).max())
         ctol = {'d': 1e-9, 's': 1e-4}[prec(m.get('dt', 'f8'))]
         norm = m['which'] == 'norm'
         base = m.get('base', c.clause)
-        cc = np.corrcoef(d)
+        cc = np.corrcoef(d) if cc_exact is None else cc_exact
+        if cc_exact is not None:
+            ctol = L.tol(kap)
         for i in range(nch):
             for j in range(i, nch):
                 want = direct_cov(d[i], d[j], True, False, False).real
@@ -1172,7 +1337,11 @@ def check_case(c, rng=None):
         if not m['nm']:
             tot = got[0] + 2 * got[1:(n + 1) // 2].sum() + (got[n // 2] if n % 2 == 0 else 0.0)
             r = float(np.corrcoef(a, b)[0, 1])
-            if not abs(tot - r) <= (1e-9 if prec(m.get('dt', 'f8')) == 'd' else 1e-3):
+            tl = 1e-9 if prec(m.get('dt', 'f8')) == 'd' else 1e-3
+            if m.get('l10'):       # round 4 (L10): exact rational Pearson coefficient, tolerance from the condition numbers
+                import c20_l10 as L
+                r, tl = L.pearson(a, b), L.tol(max(L.kappa(a), L.kappa(b)))
+            if not abs(tot - r) <= tl:
                 return fail(c, 'sum', 'the spectrum sums to %r, the correlation coefficient is %r [max|x1| = %.3g, max|x2| = %.3g]' % (float(tot), r, float(np.abs(a).max()), float(np.abs(b).max())))
         return None
     if op == 'ent':
@@ -1264,6 +1433,8 @@ def replay(d):
         y = restore(m['y'], m['cplx'], dts[1]) if m['y'] else None
         c = mk_cov_case(m['fn'], x, y, m['axis'], m['al'], m['db'], m['nm'], m.get('variant', 'plain'), tuple(dts), m.get('paths', False),
                         m.get('omit', 0))
+        if m.get('l10'):
+            l10_mark_cov(c, m['l10'])
     elif op == 'covvec':
         dts = m['dts']
         x = restore(m['x'], m['cplx'], dts[0])
@@ -1275,6 +1446,8 @@ def replay(d):
         c = mk_ent_case(m['fn'], m['seqs'], m['lag'], m.get('variant', 'plain'), m.get('lab', 'i8'))
     elif op == 'xcorr':
         c = [q for q in mk_xcorr_cases(tuple(m.get('order', [m['which']])), m['data'], m.get('dt', 'f8')) if q.meta['which'] == m['which']][0]
+        if m.get('l10'):
+            l10_mark(c, m['l10'])
     elif op == 'len':
         a, b = np.array(m['a']), np.array(m['b'])
         c = Case(d['line'], call(lambda: 'ok ' + flist(U().crosscov(a, b))), d['clause'], meta=m)
